@@ -394,7 +394,9 @@ def check_frame(modinfo, rel, shapes=(), roots=None, allow_self_rebind=True, sel
             continue
         if r == "P":
             m_ = _re.match(r"[A-Za-z_]\w*", s.text)
-            if m_ and _param_always_fresh(modinfo, qual, m_.group(0)):
+            shallow = _re.fullmatch(r"(call:)?P(\.\w+){1,2}", s.shape)    # the object's own attributes / its own containers;
+            # what lies deeper (elements, qualifier values) may be shared with an input and keeps the old verdict
+            if m_ and shallow and _param_always_fresh(modinfo, qual, m_.group(0)):
                 continue      # written through a parameter that only ever receives objects made by the caller: not an input
         bad.append("%s::%s line %d: `%s` writes through the path %s" % (rel, qual, s.lineno, s.text, s.shape))
     return bad
